@@ -130,6 +130,7 @@ TrOverlayTryCommit ==
     /\ IsEv("OverlayTryCommit")
     /\ \/ Cur.res = "Ok" /\ OverlayTryCommitDone(Cur.o)
        \/ Cur.res = "HandedBack" /\ OverlayTryCommitHandedBack(Cur.o)
+       \/ Cur.res = "HandedBack" /\ R("conc") /\ ovl[Cur.o].st = "live" /\ UNCHANGED vars
        \/ Cur.res = "ParentNotCommitted" /\ OverlayCommitParentNotCommitted(Cur.o)
        \/ Cur.res = "Stale" /\ OverlayCommitStale(Cur.o)
        \/ Cur.res = "Poisoned" /\ OverlayCommitPoisoned(Cur.o)
@@ -163,11 +164,12 @@ Obs(st, m, sq) ==
     /\ R("kv") \/ st.probesOk
     /\ R("seqn") \/ st.seqn = sq
     /\ R("root") \/ st.rootOk
+    /\ IF R("dec") \/ "dec" \notin DOMAIN st THEN TRUE ELSE st.dec.ok /\ st.dec.kvOk   \* C16 on recovered images
 
 NewMapOf(o) ==
     IF o.a \in {"Commit", "TryCommit"} THEN Apply(kv, fin[o.f].w)
     ELSE IF o.a \in {"OverlayCommit", "OverlayTryCommit"} THEN Apply(kv, ovl[o.o].w)
-    ELSE IF o.a = "Rollback" THEN Apply(kv, Traceback(memLog, o.n))
+    ELSE IF o.a = "Rollback" THEN (IF o.n <= Len(memLog) THEN Apply(kv, Traceback(memLog, o.n)) ELSE kv)
     ELSE kv
 NewSeqnOf(o) == IF o.a = "Reopen" THEN seqn ELSE seqn + 1
 \* for a reopen of a closed store the reference state is the durable image
